@@ -1,7 +1,7 @@
 #!/bin/sh
 # tools/try_patch.sh <patch.diff> <ID> [tier]: apply a seeded change to /repo, run the check, undo it.
 P="$1"; ID="$2"; TIER="${3:-quick}"
-cd /repo || exit 2
+P="$(cd "$(dirname "$P")" && pwd)/$(basename "$P")"; cd /repo || exit 2
 git diff --quiet || { echo "/repo has uncommitted changes"; exit 2; }
 git apply "$P" || { echo "patch does not apply"; exit 2; }
 cd /verif && ./check "$ID" --tier "$TIER" > /tmp/try_patch_$ID.log 2>&1; rc=$?
